@@ -813,6 +813,13 @@ pub fn explore(ctx: &mut Ctx, label: &str) {
                     let f = Facts { anns: groups.sequential(&p), ..base.clone() };
                     via_binary(ctx, &f, &EncOpts::list_order(3), &format!("term ids inside gene record in order {p:?}"));
                 }
+                // every record's term ids descending (the whole fact list reversed): genes, OMIM and ORPHA records
+                {
+                    let mut anns = groups.sequential(&ident);
+                    anns.reverse();
+                    let f = Facts { anns, ..base.clone() };
+                    via_binary(ctx, &f, &EncOpts::list_order(3), "fact list reversed: term ids inside every gene, OMIM and ORPHA record descending");
+                }
                 // gene record orders: permute the three gene groups
                 let gg: [Vec<AnnFact>; 3] = [groups.g1.clone(), groups.g2.clone(), vec![groups.bare[0].clone()]];
                 for p in permutations(3) {
